@@ -78,6 +78,18 @@ def run(run):
                 parts.append("\n".join(lines) + "\n  " + rng.choice(["void m%d(int p) { }" % j, "int f%d = 1;" % j, "class N%d { }" % j, "@Deprecated void d%d() { }" % j]) + "\n")
             parts.append("}\n")
             inputs.append(("javadoc-stress", "".join(parts).encode("utf-8")))
+        # comments stacked above declarations: Javadoc, plain block comments and line comments in every order and number
+        cm = ["/** doc %d */", "/* note %d */", "// line %d", "/** @param p x\n   * @return y %d */", "/* */", "/**/", "/***/", "@Deprecated"]
+        for i in range(12 if quick else 200):
+            parts = ["class S%d {\n" % i]
+            for j in range(5):
+                for _ in range(rng.randint(0, 5)):
+                    c = rng.choice(cm)
+                    parts.append("  " + (c % rng.randint(0, 99) if "%d" in c else c) + "\n")
+                parts.append("  " + rng.choice(["public int m%d(int p) { return p; }" % j, "int f%d = %d;" % (j, j), "static class N%d { }" % j, "void v%d() { }" % j, "S%d() { }" % i]) + "\n")
+            parts.append("}\n")
+            inputs.append(("stacked-comments", "".join(parts).encode("utf-8")))
+        inputs.append(("stacked-comments", b"class L {\n  /** doc */\n  /* note */\n  public int answer() { return 42; }\n  /* a */ /* b */ /** c */ /* d */\n  void w() { }\n}\n"))
         # a local declaration followed, in the same block, by deeply nested code in trailing positions
         for dd in (10, 16, 24):
             inputs.append(("local-then-deep", ("class A { int f(int a){ return a; } void m(boolean c){ int unused = 0; int r = " + "f(" * dd + "1" + ")" * dd + "; } }").encode()))
